@@ -72,5 +72,307 @@ theorem insert_spec (b : Bitmap) (h : b.WF) (v : Nat) (hv : v < 4294967296) :
     unfold hi16 lo16 at *
     exact propext Iff.rfl
 
+/-! ### pointwise transformation of the chunks, dropping the ones that became empty -/
+
+def mapDrop (f : Container → Container) (b : Bitmap) : Bitmap := (b.map f).filter (fun c => !c.isEmpty)
+
+theorem mem_elems_iff_exists (b : Bitmap) (y : Nat) : y ∈ elems b ↔ ∃ c ∈ b, y ∈ c.elems := by
+  simp [elems, List.mem_flatMap]
+
+theorem cElems_nil_of_isEmpty (c : Container) (hc : c.store.Inv) (h : c.isEmpty = true) : c.elems = [] := by
+  have := Store.isEmpty_spec c.store hc
+  unfold Container.isEmpty at h
+  rw [this] at h
+  simp only [Container.elems]
+  rw [List.isEmpty_iff.mp h]; rfl
+
+theorem mapDrop_spec (f : Container → Container) :
+    ∀ (b : Bitmap), b.Dir → (∀ c ∈ b, (f c).key = c.key ∧ (f c).store.Canon) →
+      (mapDrop f b).WF ∧ (∀ y, y ∈ elems (mapDrop f b) ↔ ∃ c ∈ b, y ∈ (f c).elems) ∧
+      (∀ d ∈ mapDrop f b, ∃ c ∈ b, d.key = c.key) := by
+  intro b
+  induction b with
+  | nil => intro _ _; simp [mapDrop, Bitmap.WF, elems]
+  | cons c cs ih =>
+    intro hdir hf
+    obtain ⟨ih1, ih2, ih3⟩ := ih hdir.tail (fun d hd => hf d (List.mem_cons_of_mem _ hd))
+    obtain ⟨fk, fc⟩ := hf c (List.mem_cons_self ..)
+    have hck := (hdir.2 c (List.mem_cons_self ..)).1
+    have hlt := hdir.head_lt
+    have e : mapDrop f (c :: cs) = if (f c).isEmpty then mapDrop f cs else f c :: mapDrop f cs := by
+      simp only [mapDrop, List.map_cons, List.filter_cons]
+      cases (f c).isEmpty <;> simp
+    rw [e]
+    by_cases hem : (f c).isEmpty = true
+    · rw [if_pos hem]
+      refine ⟨ih1, ?_, ?_⟩
+      · intro y; rw [ih2 y]
+        have hnil := cElems_nil_of_isEmpty (f c) (Store.canon_inv _ fc) hem
+        constructor
+        · rintro ⟨d, hd, hy⟩; exact ⟨d, List.mem_cons_of_mem _ hd, hy⟩
+        · rintro ⟨d, hd, hy⟩
+          rcases List.mem_cons.mp hd with h | h
+          · subst h; rw [hnil] at hy; simp at hy
+          · exact ⟨d, h, hy⟩
+      · intro d hd; obtain ⟨c', hc', hk⟩ := ih3 d hd; exact ⟨c', List.mem_cons_of_mem _ hc', hk⟩
+    · rw [if_neg hem]
+      have hne : (f c).store.elems ≠ [] := by
+        intro hc
+        apply hem
+        unfold Container.isEmpty
+        rw [Store.isEmpty_spec _ (Store.canon_inv _ fc), hc]; rfl
+      refine ⟨?_, ?_, ?_⟩
+      · apply wf_of_dir
+        · apply Dir.cons ih1.dir (by rw [fk]; exact hck) fc
+          intro d hd
+          obtain ⟨c', hc', hk⟩ := ih3 d hd
+          rw [fk, hk]; exact hlt c' hc'
+        · intro d hd
+          rcases List.mem_cons.mp hd with h | h
+          · rw [h]; exact hne
+          · exact ih1.ne d h
+      · intro y
+        simp only [elems, List.flatMap_cons, List.mem_append]
+        have := ih2 y
+        simp only [elems] at this
+        rw [this]
+        constructor
+        · rintro (hy | ⟨d, hd, hy⟩)
+          · exact ⟨c, List.mem_cons_self .., hy⟩
+          · exact ⟨d, List.mem_cons_of_mem _ hd, hy⟩
+        · rintro ⟨d, hd, hy⟩
+          rcases List.mem_cons.mp hd with h | h
+          · subst h; exact Or.inl hy
+          · exact Or.inr ⟨d, h, hy⟩
+      · intro d hd
+        rcases List.mem_cons.mp hd with h | h
+        · exact ⟨c, List.mem_cons_self .., by rw [h, fk]⟩
+        · obtain ⟨c', hc', hk⟩ := ih3 d h; exact ⟨c', List.mem_cons_of_mem _ hc', hk⟩
+
+theorem mapDrop_id (f : Container → Container) (b : Bitmap) (hne : ∀ c ∈ b, c.isEmpty = false)
+    (hf : ∀ c ∈ b, f c = c) : mapDrop f b = b := by
+  induction b with
+  | nil => rfl
+  | cons c cs ih =>
+    have h1 := hf c (List.mem_cons_self ..)
+    have h2 := hne c (List.mem_cons_self ..)
+    simp only [mapDrop, List.map_cons, List.filter_cons, h1, h2]
+    simp only [Bool.not_false, if_true]
+    congr 1
+    exact ih (fun d hd => hne d (List.mem_cons_of_mem _ hd)) (fun d hd => hf d (List.mem_cons_of_mem _ hd))
+
+theorem WF.isEmpty_false {b : Bitmap} (h : b.WF) : ∀ c ∈ b, c.isEmpty = false := by
+  intro c hc
+  have hcan := (h.dir.2 c hc).2
+  have := h.ne c hc
+  unfold Container.isEmpty
+  rw [Store.isEmpty_spec _ (Store.canon_inv _ hcan)]
+  cases hl : c.store.elems with
+  | nil => exact absurd hl this
+  | cons a l => rfl
+
+/-! ### remove -/
+theorem remove_eq_mapDrop (v : Nat) : ∀ (b : Bitmap), b.WF →
+    (remove b v).1 = mapDrop (fun c => if c.key = hi16 v then (c.remove (lo16 v)).1 else c) b := by
+  intro b
+  induction b with
+  | nil => intro _; simp [remove, search_nil, mapDrop]
+  | cons c cs ih =>
+    intro hwf
+    have hdir := hwf.dir
+    have hwf' : Bitmap.WF cs := wf_of_dir _ hdir.tail (fun d hd => hwf.ne d (List.mem_cons_of_mem _ hd))
+    have hlt := hdir.head_lt
+    have hne := hwf.isEmpty_false
+    have e : ∀ f, mapDrop f (c :: cs) = if (f c).isEmpty then mapDrop f cs else f c :: mapDrop f cs := by
+      intro f
+      simp only [mapDrop, List.map_cons, List.filter_cons]
+      cases (f c).isEmpty <;> simp
+    rw [e]
+    unfold remove
+    rw [search_cons]
+    by_cases h1 : c.key < hi16 v
+    · have hk : ¬ c.key = hi16 v := by omega
+      simp only [h1, if_true, hk, if_false, hne c (List.mem_cons_self ..)]
+      have ih' := ih hwf'
+      unfold remove at ih'
+      rw [← ih']
+      cases hs : search cs (hi16 v) with
+      | mk f loc =>
+        cases f with
+        | false => simp
+        | true =>
+          simp only [List.getElem?_cons_succ]
+          cases hcl : cs[loc]? with
+          | none => simp
+          | some d =>
+            simp only []
+            by_cases hr : (d.remove (lo16 v)).2 = true
+            · by_cases hr2 : (d.remove (lo16 v)).1.isEmpty = true
+              · simp [hr, hr2]
+              · simp [hr, hr2]
+            · simp [hr]
+    · simp only [h1, if_false]
+      by_cases h2 : c.key = hi16 v
+      · have h2' : (c.key == hi16 v) = true := by simp [h2]
+        have hid : mapDrop (fun c => if c.key = hi16 v then (c.remove (lo16 v)).1 else c) cs = cs := by
+          apply mapDrop_id _ _ (fun d hd => hne d (List.mem_cons_of_mem _ hd))
+          intro d hd; have := hlt d hd; rw [if_neg (by omega)]
+        rw [hid]
+        simp only [h2', h2, if_true, List.getElem?_cons_zero]
+        by_cases hr : (c.remove (lo16 v)).2 = true
+        · by_cases hr2 : (c.remove (lo16 v)).1.isEmpty = true
+          · simp [hr, hr2]
+          · simp [hr, hr2]
+        · -- nothing removed: the container keeps its (non-empty) contents
+          have hcan := (hdir.2 c (List.mem_cons_self ..)).2
+          have hl : lo16 v < 65536 := by unfold lo16; omega
+          obtain ⟨_, r2, r3, r4⟩ := Container.remove_spec c hcan (lo16 v) hl
+          have hr' : (c.remove (lo16 v)).2 = false := by simpa using hr
+          have hnm : lo16 v ∉ c.store.elems := by rw [r4] at hr'; simpa using hr'
+          have hne2 : (c.remove (lo16 v)).1.isEmpty = false := by
+            unfold Container.isEmpty
+            rw [Store.isEmpty_spec _ (Store.canon_inv _ r2)]
+            have hcne := hwf.ne c (List.mem_cons_self ..)
+            cases hl2 : c.store.elems with
+            | nil => exact absurd hl2 hcne
+            | cons a l =>
+              have : a ∈ (c.remove (lo16 v)).1.store.elems := by
+                rw [r3]; rw [hl2] at hnm ⊢
+                exact ⟨List.mem_cons_self .., fun hc => hnm (hc ▸ List.mem_cons_self ..)⟩
+              cases hl3 : (c.remove (lo16 v)).1.store.elems with
+              | nil => rw [hl3] at this; simp at this
+              | cons _ _ => rfl
+          simp [hr, hne2]
+      · have h2' : (c.key == hi16 v) = false := by simp [h2]
+        have hid : mapDrop (fun c => if c.key = hi16 v then (c.remove (lo16 v)).1 else c) cs = cs := by
+          apply mapDrop_id _ _ (fun d hd => hne d (List.mem_cons_of_mem _ hd))
+          intro d hd; have := hlt d hd; rw [if_neg (by omega)]
+        rw [hid]
+        simp [h2', h2, hne c (List.mem_cons_self ..)]
+
+theorem remove_cons_lt (c : Container) (cs : Bitmap) (v : Nat) (h1 : c.key < hi16 v) :
+    remove (c :: cs) v = (c :: (remove cs v).1, (remove cs v).2) := by
+  unfold remove
+  rw [search_cons]
+  simp only [h1, if_true]
+  cases hs : search cs (hi16 v) with
+  | mk f loc =>
+    cases f with
+    | false => simp
+    | true =>
+      simp only [List.getElem?_cons_succ]
+      cases hcl : cs[loc]? with
+      | none => simp
+      | some d =>
+        simp only []
+        by_cases hr : (d.remove (lo16 v)).2 = true
+        · by_cases hr2 : (d.remove (lo16 v)).1.isEmpty = true
+          · simp [hr, hr2]
+          · simp [hr, hr2]
+        · simp [hr]
+
+theorem remove_cons_eq (c : Container) (cs : Bitmap) (v : Nat) (h2 : c.key = hi16 v) :
+    (remove (c :: cs) v).2 = (c.remove (lo16 v)).2 := by
+  unfold remove
+  rw [search_cons]
+  have h1 : ¬ c.key < hi16 v := by omega
+  have h2' : (c.key == hi16 v) = true := by simp [h2]
+  simp only [h1, if_false, h2', List.getElem?_cons_zero]
+  by_cases hr : (c.remove (lo16 v)).2 = true
+  · by_cases hr2 : (c.remove (lo16 v)).1.isEmpty = true
+    · simp [hr, hr2]
+    · simp [hr, hr2]
+  · simp [hr]
+
+theorem remove_cons_gt (c : Container) (cs : Bitmap) (v : Nat) (h3 : hi16 v < c.key) :
+    (remove (c :: cs) v).2 = false := by
+  unfold remove
+  rw [search_cons]
+  have h1 : ¬ c.key < hi16 v := by omega
+  have h2' : (c.key == hi16 v) = false := by simp; omega
+  simp [h1, h2']
+
+theorem chunk_cons_eq (c : Container) (cs : Bitmap) (k : Nat) (h : c.key = k) :
+    chunk (c :: cs) k = c.store.elems := by simp [chunk, h]
+theorem chunk_cons_ne (c : Container) (cs : Bitmap) (k : Nat) (h : c.key ≠ k) :
+    chunk (c :: cs) k = chunk cs k := by simp [chunk, h]
+
+theorem remove_ret (v : Nat) : ∀ (b : Bitmap), b.Dir →
+    ((remove b v).2 = true ↔ lo16 v ∈ chunk b (hi16 v)) := by
+  intro b
+  induction b with
+  | nil => intro _; simp [remove, search_nil, chunk]
+  | cons c cs ih =>
+    intro hdir
+    have hcan := (hdir.2 c (List.mem_cons_self ..)).2
+    have hl : lo16 v < 65536 := by unfold lo16; omega
+    by_cases h1 : c.key < hi16 v
+    · rw [remove_cons_lt c cs v h1, chunk_cons_ne c cs _ (by omega)]
+      exact ih hdir.tail
+    · by_cases h2 : c.key = hi16 v
+      · rw [remove_cons_eq c cs v h2, chunk_cons_eq c cs _ h2,
+          (Container.remove_spec c hcan (lo16 v) hl).2.2.2]
+        simp
+      · rw [remove_cons_gt c cs v (by omega)]
+        have : chunk (c :: cs) (hi16 v) = [] :=
+          chunk_nil_of_lt (fun d hd => by
+            rcases List.mem_cons.mp hd with h | h
+            · rw [h]; omega
+            · have := hdir.head_lt d h; omega)
+        rw [this]; simp
+
+theorem remove_spec (b : Bitmap) (h : b.WF) (v : Nat) :
+    (remove b v).1.WF ∧ elems (remove b v).1 = (Spec.remove (elems b) v).1 ∧
+    (remove b v).2 = (Spec.remove (elems b) v).2 := by
+  have hdir := h.dir
+  have hl : lo16 v < 65536 := by unfold lo16; omega
+  have hjs := join_split v
+  rw [remove_eq_mapDrop v b h]
+  have hf : ∀ c ∈ b, ((fun c : Container => if c.key = hi16 v then (c.remove (lo16 v)).1 else c) c).key = c.key ∧
+      ((fun c : Container => if c.key = hi16 v then (c.remove (lo16 v)).1 else c) c).store.Canon := by
+    intro c hc
+    have hcan := (hdir.2 c hc).2
+    simp only []
+    split
+    · exact ⟨(Container.remove_spec c hcan _ hl).1, (Container.remove_spec c hcan _ hl).2.1⟩
+    · exact ⟨rfl, hcan⟩
+  obtain ⟨m1, m2, _⟩ := mapDrop_spec _ b hdir hf
+  refine ⟨m1, ?_, ?_⟩
+  · apply Arr.sorted_ext _ _ (sorted_elems _ m1.dir) (Spec.sorted_remove _ (sorted_elems b hdir) v)
+    intro y
+    rw [m2 y, Spec.mem_remove, mem_elems_iff_exists]
+    constructor
+    · rintro ⟨c, hc, hy⟩
+      have hcan := (hdir.2 c hc).2
+      have hinv := Store.canon_inv _ hcan
+      by_cases hk : c.key = hi16 v
+      · rw [if_pos hk] at hy
+        obtain ⟨r1, r2, r3, _⟩ := Container.remove_spec c hcan _ hl
+        rw [mem_cElems _ (Store.canon_inv _ r2), r1, r3] at hy
+        refine ⟨⟨c, hc, (mem_cElems c hinv y).mpr ⟨hy.1, hy.2.1⟩⟩, ?_⟩
+        intro hyv; subst hyv; exact hy.2.2 rfl
+      · rw [if_neg hk] at hy
+        refine ⟨⟨c, hc, hy⟩, ?_⟩
+        rw [mem_cElems c hinv] at hy
+        intro hyv; subst hyv; exact hk hy.1.symm
+    · rintro ⟨⟨c, hc, hy⟩, hne⟩
+      have hcan := (hdir.2 c hc).2
+      have hinv := Store.canon_inv _ hcan
+      refine ⟨c, hc, ?_⟩
+      by_cases hk : c.key = hi16 v
+      · rw [if_pos hk]
+        obtain ⟨r1, r2, r3, _⟩ := Container.remove_spec c hcan _ hl
+        rw [mem_cElems c hinv] at hy
+        rw [mem_cElems _ (Store.canon_inv _ r2), r1, r3]
+        refine ⟨hy.1, hy.2, ?_⟩
+        intro hc2
+        apply hne
+        unfold hi16 lo16 at *
+        omega
+      · rw [if_neg hk]; exact hy
+  · rw [Spec.remove_ret, Bool.eq_iff_iff, remove_ret v b hdir, decide_eq_true_eq, mem_elems b hdir]
+    unfold hi16 lo16 at *
+    exact Iff.rfl
+
 end Bitmap
 end Roaring
